@@ -227,12 +227,12 @@ func init() {
 		ID: "C08",
 		Rule: "cases are (a, b) pairs diffed under SET, MULTISET, SetKeys(id), SetKeys(id,k2), SET+SetKeys(id); each diff is applied (in memory or re-read) to a, permutations of a, b, random perturbations, " +
 			"and targets built at the addressed array: replaced by a scalar / an object / removed, the removed member absent, one copy fewer (multiset), a member added or duplicated, a keyed member with a non-key field changed, a decoy carrying the key a partial-key member lacks placed before it; under two keys some members lack one key (the same members in a and b, hunks then carry null for it); " +
-			"plus constructed {} / [] hunks no single Diff emits (a value under both - and +, more copies removed than present, members added that are already there) over a small alphabet; " +
+			"plus constructed {} / [] hunks no single Diff emits (a value under both - and +, more copies removed than present, members added that are already there) over a small alphabet; members that are 1-70 KB strings differing in one middle byte, multiplicities up to 300; " +
 			"every Patch event is compared with the reference set / bag / keyed-member interpreter under the set or multiset reading; non-trivial = target is not a itself; distinct = distinct (a, b, options, target)",
 		Floors: map[string]int{"patch_events": 100000, "both_apply": 20000, "both_reject": 10000, "target:permutation-of-a": 10000,
 			"target:addressed:non-array:scalar": 500, "target:addressed:removed-element-absent": 300, "target:addressed:one-copy-fewer": 300,
 			"target:addressed:keyed-member-nonkey-field-changed": 300, "reject:set remove": 300, "reject:multiset remove": 300, "reject:no member": 100, "hunk_keyed_member": 1000,
-			"members_lacking_a_key": 1000, "constructed_hunks": 5000, "constructed_hunk_removes_and_adds_one_value": 1000},
+			"members_lacking_a_key": 1000, "bulky_member_cases": 1000, "high_multiplicity": 100, "constructed_hunks": 5000, "constructed_hunk_removes_and_adds_one_value": 1000},
 		Assumptions: []string{
 			"reference semantics: {} hunk = every removed value present under the recursive set reading, added values inserted if absent, others untouched; [] hunk = by multiplicities; {\"k\":v} = the member object whose k fields equal v, rest of the path applied strictly inside it, any failure fails the patch",
 			"SetKeys inputs satisfy the stated precondition; key values are scalars; key tuples never permutations of each other (known finding F21 lives in C01)",
@@ -274,6 +274,46 @@ func init() {
 				x, y := arraysK3N4[i/len(arraysK3N4)], arraysK3N4[i%len(arraysK3N4)]
 				w := i % 2
 				c08Case(c, ref.ToJSON(gen.Wrap(x, w)), ref.ToJSON(gen.Wrap(y, w)), o, gen.PTiny)
+			},
+		})
+	}
+	for _, o := range []OptSet{OptSetO, OptMset} {
+		o := o
+		p.Strata = append(p.Strata, mon.Stratum{
+			Name: "bulky-members/" + o.Name,
+			N:    qt(1200, 60000),
+			Run: func(c *mon.Ctx, i int) {
+				// members that are long strings differing only in the middle, and members held
+				// 3..300 times: identity by a shortened digest or a narrow counter shows here
+				r := c.R
+				n := []int{1100, 1100, 5000, 70000}[i%4]
+				s1, s2 := midDiffPair(n)
+				alpha := []any{s1, s2, "x", 1.0, []any{s1}, map[string]any{"k": s2}}
+				mk := func() []any {
+					var l []any
+					for k := r.Range(1, 5); k > 0; k-- {
+						l = append(l, gen.Pick(r, alpha))
+					}
+					return l
+				}
+				a := mk()
+				b, isArr := gen.Mutate(r, gen.PTiny.With(func(p *gen.Profile) { p.Scalars = alpha[:4] }), a).([]any)
+				if !isArr {
+					b = append(mk(), "y")
+				}
+				if i%3 == 0 && o.Reading == ref.Multiset {
+					// high multiplicities
+					hi := []int{3, 7, 255, 256, 257, 300}[(i/3)%6]
+					for k := 0; k < hi; k++ {
+						a = append(a, "x")
+					}
+					for k := r.Range(0, hi); k > 0; k-- {
+						b = append(b, "x")
+					}
+					c.Feature("high_multiplicity")
+				}
+				c.Feature("bulky_member_cases")
+				c08Case(c, ref.ToJSON(a), ref.ToJSON(b), o, gen.PTiny)
 			},
 		})
 	}
